@@ -162,7 +162,7 @@ func init() {
 			func(s string) string { return strings.ReplaceAll(s, " ", " \r") },
 			func(s string) string { return "\r\n " + strings.ReplaceAll(s, " ", "\n") + " \r\n" },
 			func(s string) string { return "\t\t" + strings.ReplaceAll(s, " ", "\t") + "\v" },
-			func(s string) string { return strings.ReplaceAll(s, " ", " \u00a0") },                  // no-break space
+			func(s string) string { return strings.ReplaceAll(s, " ", " \u00a0") },                            // no-break space
 			func(s string) string { return "\u3000" + strings.ReplaceAll(s, " ", "\u2003\u2003") + "\u2028" }, // ideographic, em space, line separator
 		}
 		for _, q := range queries {
